@@ -182,7 +182,7 @@ def run(ctx: Ctx):
             if mode == "seq" and ntok >= 3:
                 slots = rng.sample(slots, 1)
             elif mode == "seq" and ntok == 2 and q:
-                slots = rng.sample(slots, min(2, len(slots)))
+                slots = rng.sample(slots, 1)
             elif mode == "gram" and q:
                 slots = rng.sample(slots, min(2, len(slots)))
             elif mode == "sweep" and q:
